@@ -132,6 +132,12 @@ func blockReturnsError(b *ssa.BasicBlock, depth int) bool {
 	case *ssa.Jump:
 		return blockReturnsError(b.Succs[0], depth+1)
 	case *ssa.If:
+		// in a function without results "returns" says nothing about success or failure (every path
+		// returns eventually): there the error leg must be a straight line to its return, a further
+		// decision on it could lead back into the success continuation
+		if b.Parent().Signature.Results().Len() == 0 {
+			return false
+		}
 		return blockReturnsError(b.Succs[0], depth+1) && blockReturnsError(b.Succs[1], depth+1)
 	}
 	return false
